@@ -158,7 +158,7 @@ pub fn gen(stream: &str, tier: &str, seed: u64, out: &mut dyn Write) -> bool {
                     cx.mrg(e, &a, &bytes_of(e, &b));
                     // the second encoding as another conforming encoder may write it: repeated scalars packed, unpacked or split
                     // into runs, fields interleaved, defaults present or omitted - merged into a value that is not empty
-                    if k % 2 == 0 {
+                    if k % (if thorough { 4 } else { 2 }) == 0 {
                         use crate::shared::refcodec::{ref_encode, Choices};
                         let alt = ref_encode(s, &b, &mut Choices { r: &mut r, canonical: false });
                         cx.mrg(e, &a, &alt);
